@@ -190,6 +190,24 @@ def run(ctx):
     ctx.ob('C13.2', 'workspace', 'sinks-examined', True, '%d sink operands in tool / workspace / task / checkpoint code examined, taint fixpoint in %d rounds' % (nsinks, T.rounds))
 
     c134(ctx)
+    # ---------------------------------------------------------------- C13.6
+    ctx.rule('C13.6', 'the patch parser is a resolver for every path it hands out: each path field (path, moved_to) of every PatchOp the parser builds derives from a parse_rel_path result — Patch::parse is treated as a sanitiser by C13.2, so a field that bypasses parse_rel_path (a `Move to:` target taken as written) is an unchecked path with a clean label.')
+    n6 = 0
+    for p_, g in sorted(P.fns.items()):
+        if not p_.startswith('rip_workspace::patch'):
+            continue
+        for (bi, si, st) in g.aggregates(r'rip_workspace::patch::PatchOp$'):
+            rv = st['rv']
+            for fld, op in zip(rv['fields'], rv['a']):
+                if not re.search(r'PathBuf', next((x['ty'] for v_ in (P.adts.get('rip_workspace::patch::PatchOp') or {'variants': []})['variants'] if v_['name'] == rv.get('variant') for x in v_['fields'] if x['name'] == fld), '')):
+                    continue
+                n6 += 1
+                ctx.touch(g)
+                rl = reads_locals(g, op)
+                via = any(s_.dest['l'] in rl for s_ in g.calls(r'^rip_workspace::patch::parse_rel_path$'))
+                ctx.ob('C13.6', g, 'parsed-path-resolved:%s.%s' % (rv.get('variant'), fld), via, 'PatchOp::%s.%s %s' % (rv.get('variant'), fld, 'comes out of parse_rel_path' if via else
+                       'does NOT pass parse_rel_path: an absolute or `..` path in the patch text is handed to the workspace as a parsed (trusted) path'), line=st.get('ln'))
+    ctx.floor('C13.6', 'path fields of PatchOp constructions in the parser', n6, 4)
     # ---------------------------------------------------------------- C13.5
     ctx.rule('C13.5', '`..` is only ever refused, never normalised away: every function of the workspace that distinguishes Component::ParentDir (a switch on a path component with an arm for it) is one of the predicates whose true result C13.1 proved to lead to a refusal. A helper that pops / skips / rewrites `..` ("lexical cleaning", de-duplication of spellings) launders a path before a resolver sees it: `../a.txt` arrives as `a.txt`.')
     npd = 0
